@@ -346,6 +346,9 @@ pub struct W2Out {
     pub quota_polls: u64,
     pub routes_max: usize,
     pub init_doc: Option<String>,
+    pub cache: crate::oracle::cache::CacheStats,
+    pub loop_cache_issues: Vec<(String, String, String)>,
+    pub insertions_observed: u64,
 }
 
 fn doc_issues(model: &PModel, ctx: &InsertionContext) -> Vec<(String, String, String)> {
@@ -365,7 +368,7 @@ fn doc_issues_with(model: &PModel, ctx: &InsertionContext, refresh: bool) -> Vec
     }
 }
 
-pub fn execute(case: &W2Case) -> crate::kernel::run::RunOutcome<W2Out> {
+pub fn execute(case: &W2Case, cache_checks: bool, per_insertion: bool) -> crate::kernel::run::RunOutcome<W2Out> {
     let problem_text = serde_json::to_string(&case.problem).unwrap();
     let matrix_texts: Vec<String> = case.matrices.iter().map(|m| serde_json::to_string(m).unwrap()).collect();
     let model = PModel::parse(&case.problem, &case.matrices);
@@ -402,7 +405,10 @@ pub fn execute(case: &W2Case) -> crate::kernel::run::RunOutcome<W2Out> {
         if trace {
             let st = trace_state.clone();
             let model2 = sys::monitor(|| model.clone());
-            vrp_core::verif::set_insertion_observer(Some(std::rc::Rc::new(move |ctx: &InsertionContext| {
+            vrp_core::verif::set_insertion_observer(Some(std::rc::Rc::new(move |ctx: &InsertionContext, site: vrp_core::verif::InsertionSite| {
+                if site != vrp_core::verif::InsertionSite::Applied {
+                    return;
+                }
                 sys::monitor(|| {
                     let mut st = st.borrow_mut();
                     st.0 += 1;
@@ -430,6 +436,24 @@ pub fn execute(case: &W2Case) -> crate::kernel::run::RunOutcome<W2Out> {
                 })
             })));
         }
+        let loop_state: std::rc::Rc<std::cell::RefCell<(crate::oracle::cache::CacheStats, Vec<(String, String, String)>, u64)>> = sys::monitor(|| Default::default());
+        if per_insertion && !trace {
+            let st = loop_state.clone();
+            vrp_core::verif::set_insertion_observer(Some(std::rc::Rc::new(move |ctx: &InsertionContext, site: vrp_core::verif::InsertionSite| {
+                if site != vrp_core::verif::InsertionSite::ConstructionLoop {
+                    return;
+                }
+                sys::monitor(|| {
+                    let mut st = st.borrow_mut();
+                    st.2 += 1;
+                    if st.1.len() < 4 {
+                        let (stats, issues, _) = &mut *st;
+                        let found = crate::oracle::cache::check_after_insertion(ctx, stats);
+                        issues.extend(found.into_iter().map(|(r, m)| ("C05".to_string(), r.to_string(), m)));
+                    }
+                })
+            })));
+        }
         let init = make_recreate(&case.init, env.random.clone());
         let mut current = init.run(&refinement_ctx, InsertionContext::new(problem.clone(), env.clone()));
         let mut out = sys::monitor(W2Out::default);
@@ -439,6 +463,12 @@ pub fn execute(case: &W2Case) -> crate::kernel::run::RunOutcome<W2Out> {
             v.extend(doc_issues(model, &current));
             v
         });
+        if cache_checks {
+            sys::monitor(|| {
+                let found = crate::oracle::cache::check_handover(&current, &mut out.cache);
+                out.loop_cache_issues.extend(found.into_iter().map(|(r, m)| ("C05".to_string(), r.to_string(), format!("after initial {}: {m}", case.init))));
+            });
+        }
         sys::monitor(|| {
             if !init_issues.is_empty() && std::env::var_os("VSIM_DUMP").is_some() {
                 out.init_doc = write_ctx(&current).ok();
@@ -477,7 +507,21 @@ pub fn execute(case: &W2Case) -> crate::kernel::run::RunOutcome<W2Out> {
                 }
                 r
             });
+            let mut report = report;
+            if cache_checks {
+                if let Some(child) = child.as_ref() {
+                    // a ruin hands over tours whose caches are refreshed by the next recreate: the hand-over of a
+                    // complete search step is where every cache is owed
+                    if !pending_allowed {
+                        sys::monitor(|| {
+                            let found = crate::oracle::cache::check_handover(child, &mut out.cache);
+                            report.issues.extend(found.into_iter().map(|(r, m)| ("C05".to_string(), r.to_string(), m)));
+                        });
+                    }
+                }
+            }
             let bad = report.parent_changed
+                || report.issues.iter().any(|(p, _, _)| p == "C05")
                 || report.issues.iter().any(|(p, r, _)| p == "C01" || p == "C04" || (p == "C02" && C02_RULES_IN_C04.contains(&r.as_str())));
             sys::monitor(|| {
                 out.routes_max = out.routes_max.max(current.solution.routes.len());
@@ -495,6 +539,16 @@ pub fn execute(case: &W2Case) -> crate::kernel::run::RunOutcome<W2Out> {
             }
         }
         vrp_core::verif::set_insertion_observer(None);
+        sys::monitor(|| {
+            let st = loop_state.borrow();
+            out.cache.routes_compared += st.0.routes_compared;
+            out.cache.entries_compared += st.0.entries_compared;
+            out.cache.opaque_entries += st.0.opaque_entries;
+            out.cache.order_dependent_entries_skipped += st.0.order_dependent_entries_skipped;
+            out.cache.order_dependent_keys.extend(st.0.order_dependent_keys.iter().cloned());
+            out.loop_cache_issues.extend(st.1.iter().cloned());
+            out.insertions_observed = st.2;
+        });
         let polls = quota.map(|q| q.polls.load(Ordering::SeqCst)).unwrap_or(0);
         sys::monitor(|| out.quota_polls = polls);
         drop(current);
@@ -556,7 +610,9 @@ pub fn make_case(seed: u64, tier: Tier) -> (W2Case, gen::problem::Features) {
 
 impl W2Scenario {
     fn record(&self, case: &W2Case, features: Option<&gen::problem::Features>) -> CaseRecord {
-        let out = execute(case);
+        let cache_checks = self.prop == "C05";
+        let per_insertion = cache_checks && (case.spec.sched_seed % 4 == 0);
+        let out = execute(case, cache_checks, per_insertion);
         let mut rec = CaseRecord { log_hash: out.log_hash, sim_ns: out.sim_ns, ..Default::default() };
         if out.arena_live != 0 {
             rec.taint = true;
@@ -611,10 +667,25 @@ impl W2Scenario {
                     rec.discarded = Some(format!("rejected: {}", r.chars().take(200).collect::<String>()));
                 }
                 rec.count("faults.quota_polls", o.quota_polls);
+                if cache_checks {
+                    rec.count("cache.routes_compared", o.cache.routes_compared);
+                    rec.count("cache.entries_compared", o.cache.entries_compared);
+                    rec.count("cache.solution_entries_compared", o.cache.solution_entries_compared);
+                    rec.count("cache.opaque_entries_not_compared", o.cache.opaque_entries);
+                    rec.count("cache.handovers_not_at_fixpoint", o.cache.not_fixpoint);
+                    rec.count("cache.order_dependent_entries_skipped", o.cache.order_dependent_entries_skipped);
+                    rec.count("cache.order_dependent_keys_learned", o.cache.order_dependent_keys.len() as u64);
+                    rec.count("cache.fitness_twins_compared", o.cache.fitness_compared);
+                    rec.count("cache.insertions_observed", o.insertions_observed);
+                    rec.count("cache.cases_with_per_insertion_monitor", per_insertion as u64);
+                    for (prop, rule, msg) in &o.loop_cache_issues {
+                        rec.issues.push(IssueRec { prop: prop.clone(), rule: rule.clone(), sig: sig_base.join("|"), msg: msg.clone() });
+                    }
+                }
                 for (prop, rule, msg) in &o.init_issues {
                     let mut sig = sig_base.clone();
                     sig.push(format!("init:{}", case.init));
-                    let prop = if prop == "C02" && C02_RULES_IN_C04.contains(&rule.as_str()) { self.prop.to_string() } else { map_prop(prop, self.prop) };
+                    let prop = if prop == "C02" && C02_RULES_IN_C04.contains(&rule.as_str()) { "C04".to_string() } else { map_prop(prop, self.prop) };
                     rec.issues.push(IssueRec { prop, rule: rule.clone(), sig: sig.join("|"), msg: format!("after initial {}: {msg}", case.init) });
                 }
                 let mut changed_any = false;
@@ -636,7 +707,7 @@ impl W2Scenario {
                         if flagged {
                             sig.push("flagged-leg-in-solution".to_string());
                         }
-                        let prop = if prop == "C02" && C02_RULES_IN_C04.contains(&rule.as_str()) { self.prop.to_string() } else { map_prop(prop, self.prop) };
+                        let prop = if prop == "C02" && C02_RULES_IN_C04.contains(&rule.as_str()) { "C04".to_string() } else { map_prop(prop, self.prop) };
                         rec.issues.push(IssueRec { prop, rule: rule.clone(), sig: sig.join("|"), msg: format!("step {k} {}: {msg}", s.op) });
                     }
                 }
@@ -653,9 +724,10 @@ impl W2Scenario {
 /// Document-level rules found on an intermediate individual are violations of C04 ("what is assigned
 /// satisfies all hard constraints", "every job lives in exactly one place"); C03-only rules are not.
 fn map_prop(found: &str, own: &str) -> String {
-    match found {
-        "C01" | "C04" => own.to_string(),
-        other => other.to_string(),
+    match (found, own) {
+        // hard-constraint and bookkeeping rules on an intermediate individual are C04's
+        ("C01" | "C04", _) => "C04".to_string(),
+        (other, _) => other.to_string(),
     }
 }
 
@@ -670,8 +742,8 @@ impl Scenario for W2Scenario {
     }
     fn cases(&self, tier: Tier) -> u64 {
         match tier {
-            Tier::Quick => 3_000,
-            Tier::Thorough => 100_000,
+            Tier::Quick => if self.prop == "C05" { 16_000 } else { 30_000 },
+            Tier::Thorough => if self.prop == "C05" { 200_000 } else { 400_000 },
         }
     }
     fn run_case(&self, case_seed: u64, tier: Tier) -> CaseRecord {
@@ -768,7 +840,10 @@ pub fn tracing_observer(model: PModel) -> vrp_core::verif::InsertionObserver {
     let seen: std::rc::Rc<std::cell::RefCell<BTreeSet<String>>> = Default::default();
     let prev: std::rc::Rc<std::cell::RefCell<String>> = Default::default();
     let count = std::rc::Rc::new(std::cell::Cell::new(0u64));
-    std::rc::Rc::new(move |ctx: &InsertionContext| {
+    std::rc::Rc::new(move |ctx: &InsertionContext, site: vrp_core::verif::InsertionSite| {
+                if site != vrp_core::verif::InsertionSite::Applied {
+                    return;
+                }
         sys::monitor(|| {
             count.set(count.get() + 1);
             let issues: Vec<_> = doc_issues(&model, ctx).into_iter().filter(|(p, r, m)| p == "C01" && !(r == "capacity" && m.contains("-"))).collect();
